@@ -24,6 +24,30 @@ TECHNIQUE = "static analysis of built MIR: evidence rule (edge dominance on chan
 CRATE = "tower_resilience_hedge"
 
 
+def _is_recv_helper(facts, tr, ac):
+    """the awaited call is a local async fn whose only await is `recv()` and which returns that await's result"""
+    for d in ac.targets_def():
+        hb2 = facts.bodies.get(d)
+        if hb2 is None or hb2.crate.name != CRATE or not hb2.j.get("is_async"):
+            continue
+        kids = [k for k in facts.children.get(hb2.def_, []) if k.kind == "coroutine"]
+        if len(kids) != 1:
+            continue
+        k = kids[0]
+        gk = graph(k)
+        aws = [a for a in gk.awaits() if a.poll_bb is not None]
+        if len(aws) != 1:
+            continue
+        ac2 = awaited_call(tr, k, aws[0])
+        if ac2 is None or ac2.name != "recv" or "mpsc" not in (ac2.def_ or ac2.path or ""):
+            continue
+        V = await_node(k, aws[0])
+        rets = ret_assigns(tr, k)
+        if rets and all(derives(tr, peel(lf), V, variants=("Ready",)) for (_i, _j, nd) in rets for lf in leaves(nd)):
+            return True
+    return False
+
+
 def run(facts, tr, rep):
     _n_ops = check_no_panicking_time_arith(facts, tr, rep, "C12.NO-PANIC-ARITH", facts.crates[CRATE].bodies)
     rep.note("panicking Instant/Duration operators examined in the crate: %d" % _n_ops)
@@ -74,6 +98,9 @@ def run(facts, tr, rep):
         ac = awaited_call(tr, hb, a)
         if ac is not None and ac.name == "recv" and from_channel(tr.expand(tr.operand(hb, ac.args[0], ac.loc)), 1):
             recv_awaits.append(a)
+        elif ac is not None and ac.args and _is_recv_helper(facts, tr, ac) and \
+                any(from_channel(tr.expand(tr.operand(hb, x, ac.loc)), 1) for x in ac.args):
+            recv_awaits.append(a)       # a private async helper that only awaits recv() on its argument and returns that
     rep.floor("C12.recv-awaits", len(recv_awaits), 1)
     sender_drops = [c for c in g.calls() if c.def_ == "core::mem::drop" and "Sender" in (c.path or "")
                     and from_channel(tr.expand(tr.operand(hb, c.args[0], c.loc)), 0)]
@@ -232,12 +259,38 @@ def run(facts, tr, rep):
                "start of the previous attempt, a late-started attempt is followed by the next one too early" % show(peel(d))[:80])
     # ------------------------------------------------------------ AWAITS: the coordinator only waits in the race / on the results
     naw = 0
+
+    def _only_race_awaits(body, depth=0):
+        """every await of a local async helper is itself a select arm, a recv on the channel, or such a helper"""
+        gb_ = graph(body)
+        for a_ in gb_.awaits():
+            t2 = gb_.term(a_.into_bb)
+            if (t2["span"].get("omacro") or "").startswith("tokio::select"):
+                continue
+            ac_ = awaited_call(tr, body, a_)
+            if ac_ is not None and ac_.name in ("recv", "recv_many") and "mpsc" in (ac_.def_ or ac_.path or ""):
+                continue
+            if ac_ is not None and depth < 2 and _helper_ok(ac_, depth + 1):
+                continue
+            return False
+        return True
+
+    def _helper_ok(ac_, depth):
+        for d_ in ac_.targets_def():
+            hb_ = facts.bodies.get(d_)
+            if hb_ is not None and hb_.crate.name == CRATE and hb_.j.get("is_async"):
+                kids = [k_ for k_ in facts.children.get(hb_.def_, []) if k_.kind == "coroutine"]
+                if kids and all(_only_race_awaits(k_, depth) for k_ in kids):
+                    return True
+        return False
     for a in g.awaits():
         naw += 1
         t_ = g.term(a.into_bb)
         in_select = (t_["span"].get("omacro") or "").startswith("tokio::select")
         ac = awaited_call(tr, hb, a)
         is_recv = ac is not None and ac.name in ("recv", "recv_many") and "mpsc" in (ac.def_ or ac.path or "")
+        if not in_select and not is_recv and ac is not None and _helper_ok(ac, 1):
+            is_recv = True       # a local async helper that itself only waits in the race / on the channel
         rep.ob("C12.AWAITS", skey(hb, "await@%s" % ("select" if in_select else (ac.name if ac is not None else "?")) + "#%d" % naw), in_select or is_recv, g.where(a.into_bb),
                "the coordinating future suspends only in the race between the result channel and the hedge timer, or on the result channel" if in_select or is_recv else
                "the coordinating future awaits %s outside the race: while it is suspended there it does not read the result channel, so "
